@@ -47,6 +47,21 @@ def gen_config(rng, profile="any", tier="quick"):
                 break
         d1 += 1
     reb = rng.choice(["weekly", "weekly", "daily", "end_of_month", "buy_and_hold"])
+    if rng.random() < 0.25:
+        # calendar coincidences: let the range end on the last business day of a month (often a Friday before a
+        # weekend month end), or start on the first
+        import calendar as _c
+        y_, m_, _dd = cal.ymd(d1)
+        L = cal.last_bday_of_month(y_, m_)
+        if rng.random() < 0.5:
+            # prefer a month whose calendar end falls on a weekend
+            for k_ in range(0, 14):
+                yy, mm = y_ + (m_ - 1 + k_) // 12, (m_ - 1 + k_) % 12 + 1
+                if cal.day_weekday(cal.epoch_day(yy, mm, _c.monthrange(yy, mm)[1])) > 4:
+                    L = cal.last_bday_of_month(yy, mm)
+                    break
+        if L > d0:
+            d1 = L
     stod = OPEN_S if (reb == "buy_and_hold" or rng.random() < 0.4) else 0
     start = d0 * DAY + stod
     end = d1 * DAY + END_TOD
@@ -76,7 +91,9 @@ def gen_config(rng, profile="any", tier="quick"):
         entries = {}
         for a in assets:
             r = rng.random()
-            if r < 0.35 or profile == "C08":
+            if r < 0.04 and profile != "C08":
+                entries[a] = -rng.choice([1, 365, 2922, 20000]) * DAY          # listed before 1970 (negative epoch)
+            elif r < 0.35 or profile == "C08":
                 entries[a] = start - rng.choice([0, DAY, 30 * DAY])
             elif r < 0.55 and sched:
                 entries[a] = rng.choice(sched)                      # exactly on a rebalance instant
@@ -163,6 +180,9 @@ def gen_config(rng, profile="any", tier="quick"):
                     w[a] = -w[a]
         if not w:
             w[assets[0]] = 1.0
+        if rng.random() < 0.1:
+            # integer-typed weights
+            w = dict((a, rng.choice([1, 1, 2, 3]) * (-1 if (not long_only and rng.random() < 0.4) else 1)) for a in sorted(w))
         if rng.random() < 0.12:
             # almost-normalised vectors: thirds rounded to six decimals, 1 +/- a few 1e-6
             ks = sorted(w)
